@@ -24,6 +24,7 @@ import (
 	"runtime"
 	"strconv"
 	"strings"
+	"sync"
 	"syscall"
 
 	"github.com/AdguardTeam/AdGuardHome/internal/configmigrate"
@@ -31,6 +32,7 @@ import (
 	"github.com/AdguardTeam/AdGuardHome/internal/filtering"
 	"github.com/AdguardTeam/AdGuardHome/internal/home"
 	"github.com/AdguardTeam/golibs/log"
+	"gopkg.in/yaml.v3"
 )
 
 const markerPrefix = ".verif-c14-marker-"
@@ -47,6 +49,74 @@ type saver interface {
 	calibrate(size int) (calib string, actual int, err error)
 	// save stores generation gen.
 	save(gen int, size int, calib string) error
+}
+
+// raceChildMain: two goroutines save the configuration concurrently, each with
+// its own generation of content (free-running, under the race detector); at
+// the end the file must be one complete encoding.  Exit code 0; data races are
+// printed by the race detector, a torn final file as "TORN ...".
+func raceChildMain(args []string) int {
+	fs := flag.NewFlagSet("race", flag.ContinueOnError)
+	dir := fs.String("dir", "", "working directory")
+	rounds := fs.Int("rounds", 40, "saves per goroutine")
+	if err := fs.Parse(args); err != nil {
+		return 3
+	}
+	log.SetOutput(io.Discard)
+	log.SetLevel(log.ERROR)
+	slog.SetDefault(slog.New(slog.NewTextHandler(io.Discard, nil)))
+	s := &configSaver{}
+	if err := s.prepare(*dir); err != nil {
+		fmt.Fprintln(os.Stderr, "child: prepare:", err)
+		return 3
+	}
+	var wg sync.WaitGroup
+	for g := 1; g <= 2; g++ {
+		wg.Add(1)
+		go func(g int) {
+			defer wg.Done()
+			for i := 0; i < *rounds; i++ {
+				// Different sizes, so that a torn mix cannot be a valid document.
+				home.VerifC14SetUserRules(configRules(g, 2000*g+i, 100))
+				if err := home.VerifC14WriteConfig(); err != nil {
+					fmt.Printf("SAVE-ERROR %v\n", err)
+				}
+			}
+		}(g)
+	}
+	wg.Wait()
+	data, err := os.ReadFile(s.dest())
+	if err != nil {
+		fmt.Printf("TORN cannot read the file: %v\n", err)
+		return 0
+	}
+	var doc map[string]any
+	if yerr := yaml.Unmarshal(data, &doc); yerr != nil {
+		fmt.Printf("TORN the stored configuration does not parse: %v\n", yerr)
+		return 0
+	}
+	rules, _ := doc["user_rules"].([]any)
+	gen := ""
+	for _, r := range rules {
+		rs, _ := r.(string)
+		g := ""
+		switch {
+		case strings.HasPrefix(rs, "||gen1.") || strings.Trim(rs, "b") == "":
+			g = "1"
+		case strings.HasPrefix(rs, "||gen2.") || strings.Trim(rs, "c") == "":
+			g = "2"
+		default:
+			g = "?"
+		}
+		if gen == "" {
+			gen = g
+		} else if gen != g {
+			fmt.Printf("TORN the stored user rules mix two saves (%s and %s)\n", gen, g)
+			return 0
+		}
+	}
+	fmt.Println("RACE-CHILD-DONE")
+	return 0
 }
 
 func childMain(args []string) int {
